@@ -337,6 +337,17 @@ def generate(rng, tier, ctx):
     # ---- initialize
     scens = make_scenarios(rng, T)
     outs = ctx.model([s.init_line() for s in scens])
+    # near-miss tags: inputs that share a long PREFIX (8, 16, 31 bytes) or suffix with the output tag but differ —
+    # none of them may count as a match; with a true match elsewhere the true index must be returned
+    for plen in (1, 4, 8, 16, 31):
+        for mode in ('nomatch', 'match-after', 'match-before'):
+            out = rng.bytes(32)
+            near = out[:plen] + bytes(b ^ 0x5a for b in out[plen:])
+            nsuf = bytes(b ^ 0xa5 for b in out[:32 - plen]) + out[32 - plen:]
+            tags = {'nomatch': [near, nsuf, rng.bytes(32)], 'match-after': [near, nsuf, out], 'match-before': [out, near, nsuf]}[mode]
+            for k in (1, 2, 3):
+                line = 'surj_initialize %d %d %s %s / %s' % (k, 50, hx(rng.bytes(32)), hx(out), ' '.join(hx(t) for t in tags))
+                cases.append((line, ('initialize', 'near-miss-prefix%d-%s' % (plen, mode))))
     for s, o in zip(scens, outs):
         cases.append((s.init_line(), ('initialize', s.cls)))
         f = o.split(' ')
